@@ -476,7 +476,7 @@ PROPS = {
     ),
     "C19": dict(
         module="YkProps.C19",
-        leancheck=["YkModel.Sort", "YkProofs.Sort", "YkProofs.SortChildren", "YkProps.C19"],
+        leancheck=["YkModel.Sort", "YkProofs.Sort", "YkProofs.SortChildren", "YkProofs.SortNodes", "YkProps.C19"],
         runs=[dict(comp="sort", quick=1600, thorough=40000),
               # "iteration reflects current utilisation" under CONCURRENT notifications: the C14 final-state scenario on the real node collection
               dict(comp="lock", quick=1, thorough=1, extra=["-mode", "only:node-collection-concurrent-updates"])],
@@ -484,24 +484,29 @@ PROPS = {
         nontrivial=lambda line: True,
         rule="sort: (queues) candidate sets of 2..6 sibling queues with many ties (priority, fair share against own guaranteed/fair max, pending) presented to the real sortQueue in two random permutations, for fair/fifo x priority on/off; "
              "(apps) 2..6 applications (ask priority, submission time, usage share) sorted twice by the real sortApplications (its input is a Go map); (asks) histories of inserts/removes on the real sortedRequests incl. extreme int32 priorities; "
-             "(nodes) histories of <=35 operations on the real NodeCollection (add/remove node, allocate, release, capacity, occupied, foreign allocations, in-place resize, reserve, policy switch) with both iterators read after every operation "
-             "and fresh scores computed with the policy in force; "
+             "(nodes) histories of <=35 operations on the real NodeCollection (add/remove node incl. nodes with a gpu capacity, allocate, allocations that EXHAUST one resource type exactly — native and foreign —, release, capacity, occupied, foreign allocations, in-place resize, reserve, "
+             "policy switch fair/binpacking with default or integral resource weights incl. a zero weight and a gpu weight) with both iterators read after every operation; every line carries per node capacity, allocated, occupied and available, the policy and its weights: "
+             "the MODEL computes the available resource and the score (exact fraction, a missing available entry = fully used) and the driver compares the available resource, the order of the implementation's fresh scores (ranks) with the model's scores (diff nodes-score) and the iterator order with the model's scores; "
              "(children) a REAL parent queue below a root with/without max and 0..1 intermediate queues (own max sparse/absent), 2..6 real children (own max sparse incl. explicit zeros, guaranteed, allocated, pending incl. nil/empty/zero/negative, priority with offset, "
-             "state Active/Draining/Stopped) built three times (children created in two different orders, and a subset of the siblings); Queue.sortQueues() is called through VerifSortedChildren twice per tree as configured (fair, priority from "
+             "state Active/Draining/Stopped; priority through the real path: priority.policy default/fence and priority.offset from the edges of int32 incl. unparsable texts, leaf children with 0..3 real applications with 0..3 real asks each (ask priorities from the edges of int32, some asks removed again), "
+             "or children that are parent queues of 1..2 such leaf queues; the MODEL computes GetCurrentPriority from policy, offset and the ask priorities, diff children-priority) built three times (children created in two different orders, and a subset of the siblings); Queue.sortQueues() is called through VerifSortedChildren twice per tree as configured (fair, priority from "
              "application.sort.priority) and for fair/fifo x priority on/off; the line carries the real own max of every queue on the chain, per child the real keys, its GetFairMaxResource and the rank of its share; the driver compares fair max and share rank with the model "
              "(fairMaxOf, exact fractions), the offered SET always and the ORDER for every pair the own-key comparator distinguishes (pairs inside a non-weak-order tie group go to the known class). "
              "Share / score floats are reported as ranks. distinct = distinct protocol lines; every line is non-trivial (>= 2 candidates or a node history step)",
         trusted=["float-valued keys (fair share, usage share, node score) are computed by the implementation and enter the model as ranks; IEEE arithmetic is trusted "
-                 "(children: the model computes the fair share itself as an exact fraction and the driver compares its ranks with the implementation's float ranks; exact for the generated quantities < 2^26)",
+                 "(children: the model computes the fair share itself as an exact fraction and the driver compares its ranks with the implementation's float ranks; exact for the generated quantities < 2^26; "
+                 "nodes: the model computes the score as an exact fraction, the implementation's float score is compared by rank; two fractions that are equal may differ in the floats, such pairs are ordered by the implementation's rank)",
                  "sort.SliceStable is modelled as a stable insertion sort: for a strict weak order every stable sort gives the same result (checked by correspondence)",
                  "google/btree ordered-set contract"],
-        assumptions=["node resource types limited to vcore and memory (the default weights; two-term float sums are order independent)"],
+        assumptions=["at most two resource types of a node carry a weight other than zero (two-term float sums are order independent); node capacities and weights are positive integers (else the line is reported as unmodelled)",
+                     "queue priority: one level of leaf queues below a sorted child (PrioQueue); ask priorities and offsets are int32"],
         level_text="Lean 4 proofs: a stable sort by an irreflexive transitive comparator yields an inversion-free permutation of the candidates whatever the presentation order (permutation invariance); the queue-priority and the four application comparators are strict weak orders for all keys, "
                    "the two fair queue comparators are as long as the pending tie-break is not reached, and the tie-break itself is machine-checked NOT to be a weak order (known finding); asks stay in (priority desc, creation time asc) order under insert/remove; "
                    "Queue.sortQueues (model offeredSorted: filter, parallel fair-max slice, lookup by queue, stable sort): the fair max the comparator reads for a child is fairMaxOf(ancestors' maxima, own max) whatever the siblings and positions (sharing impossible; the shared-object variant is refuted), "
-                   "the result is a permutation of the not-stopped children with pending > 0, and for every sibling set every pair the own-key comparator distinguishes stands in that order (fair policies: given the pending tie-break is an order inside each equal-priority-and-share group), invariant under presentation. "
-                   "Tie: correspondence of the model against the real sort functions on permuted presentations + the statement evaluated on the implementation's output; node iteration is checked by monitors only (visit once, unreserved view, fresh order).",
-        level_note="trusted: Lean kernel; hand-written comparators tied by correspondence; floats enter as ranks; node iteration order is a monitor (no theorem)",
+                   "the result is a permutation of the not-stopped children with pending > 0, and for every sibling set every pair the own-key comparator distinguishes stands in that order (fair policies: given the pending tie-break is an order inside each equal-priority-and-share group), invariant under presentation; the priority key (priorityValue / PrioQueue.value: policy, offset, largest pending ask priority below) saturates at the int32 bounds, is monotone in offset + priority and stays in range; "
+                   "the node score: a missing available entry is a fully used type, pruning is not observable, the usage is the weighted mean of the usage shares (stated over Rat), and the node order is a permutation ascending in the score with ties by node id (binpacking: descending usage). "
+                   "Tie: correspondence of the model against the real sort functions on permuted presentations + the statement evaluated on the implementation's output; node iteration: visit once / unreserved view are monitors, the order is compared with the model's score.",
+        level_note="trusted: Lean kernel; hand-written comparators tied by correspondence; floats enter as ranks only for cross-checks (queues/apps ops: as keys); node tree (btree) contract trusted",
         technique="Lean 4 proof (strict weak orders, stable sort permutation invariance) + differential correspondence over permuted presentations",
         design_ref="DESIGN.md section 4 C19",
     ),
